@@ -7,7 +7,7 @@
 //!        TWENTY_FIRST_MERKLE_TREE_PARALLELIZATION_CUTOFF=<cutoff> (or removed) and RAYON_NUM_THREADS=<threads>,
 //!        because the cut-off is a lazy static read once per process.  The child runs under a timeout; a hang is
 //!        reported as `timeout` + ORACLE-FAIL with the op line (which carries the environment) as replay.
-use crate::registry::c04::{gen_indices, rand_leaves, ref_tree};
+use crate::registry::c04::{boundary_cross, gen_indices, rand_leaves, ref_tree};
 use crate::util::*;
 use std::io::{Read, Write};
 use std::process::{Command, Stdio};
@@ -217,6 +217,11 @@ pub fn gen(rng: &mut Rng, thorough: bool, out: &mut Vec<String>) {
         let level = 1u64 << rng.below(k as u64 + 1);
         let c = match rng.below(5) { 0 => "unset".to_string(), 1 => "0".to_string(), _ => rng.around(level, 1).to_string() };
         out.push(format!("mtb build_env {} {} {}", c, rng.pick(&["1", "2", "3", "16", "t16m1", "t3m3"]), fmt_digests(&rand_leaves(rng, n))));
+    }
+    // ---- requests with an out-of-range index (boundary set) are errors, never panics, for every tree size
+    for h in [0usize, 1, 3] {
+        let leaves = rand_leaves(rng, 1usize << h);
+        boundary_cross(rng, h, &leaves, out);
     }
     // ---- honest proofs: any index list, any order, with repetitions (ops of family `mt`, oracles in c04.rs)
     let trees = if thorough { 700 } else { 50 };
